@@ -10,6 +10,8 @@
 // fresh structs and maps) and compares field-wise with representation-aware equality. At the end of a
 // database the records are read again into destinations that are used more than once (reuse.go): one map,
 // one struct (the same record again; other records after the key fields were reset), ScanRows loops, slices.
+// Keys that the caller gives take boundary values in their parts (zero value, negative, largest / smallest
+// of the type), and records are also read through destinations that carry their key (destkey.go).
 package c03
 
 import (
@@ -49,7 +51,7 @@ type rec struct {
 	keyBad  bool
 	lit     string
 	null    []bool // per leaf: the stored row holds NULL in its column (set by checkStored)
-	keyPat  string // boundary values among the parts of a given (non-auto) key: "z" zero, "n" negative, "-" ordinary; "" = auto key
+	keyPat  string // boundary values among the parts of a given (non-auto) key: "z" zero, "n" negative, "M"/"m" largest / smallest of the type, "-" ordinary; "" = auto key
 }
 
 type env struct {
@@ -322,6 +324,24 @@ func (e *env) boundaryKey(rc *rec) {
 			v.SetInt(-vals[i].Int())
 			vals[i] = v
 			pat[i] = 'n'
+		case (l.class == "int" || l.class == "uint") && r.Chance(1, 10):
+			// the largest / smallest value of the part's type (representable in the column: below 2^63)
+			v := reflect.New(l.typ).Elem()
+			bits := uint(l.typ.Bits())
+			if l.class == "uint" {
+				if bits == 64 {
+					bits = 63
+				}
+				v.SetUint(1<<bits - 1)
+				pat[i] = 'M'
+			} else if r.Bool() {
+				v.SetInt(1<<(bits-1) - 1)
+				pat[i] = 'M'
+			} else {
+				v.SetInt(-1 << (bits - 1))
+				pat[i] = 'm'
+			}
+			vals[i] = v
 		}
 	}
 	if e.usedKeys[tuple(vals)] {
@@ -336,6 +356,22 @@ func (e *env) boundaryKey(rc *rec) {
 		rc.given[l.ord] = vals[i]
 	}
 	rc.keyPat = string(pat)
+}
+
+// countKeyPat counts the boundary values among the key parts of a record that Create accepted.
+func (e *env) countKeyPat(rc *rec) {
+	for _, ch := range rc.keyPat {
+		switch ch {
+		case 'z':
+			e.c.Inc("given_key_parts_zero_value")
+		case 'n':
+			e.c.Inc("given_key_parts_negative")
+		case 'M':
+			e.c.Inc("given_key_parts_largest_of_type")
+		case 'm':
+			e.c.Inc("given_key_parts_smallest_of_type")
+		}
+	}
 }
 
 func setNum(v reflect.Value, x int64) {
@@ -944,6 +980,7 @@ func (e *env) runStructShape(shape string, forceKey string) {
 	}
 	e.c.Add("records_created", n)
 	for _, rc := range recs {
+		e.countKeyPat(rc)
 		e.expectStruct(rc, before, after, mixed)
 		if !rc.keyBad && e.checkStored(rc, mixed) {
 			e.checkReads(rc)
@@ -1083,6 +1120,7 @@ func (e *env) runMapShape(shape string) {
 		e.problem("key-backfill/"+shape+"/"+e.opt, "the slice handed to Create held %d maps, it holds %d after Create; appended: %v", n, len(maps), maps[n:])
 	}
 	for _, rc := range recs {
+		e.countKeyPat(rc)
 		rc.pkArgs = nil
 		for _, l := range m.pks {
 			if l.auto && !preset {
@@ -1164,13 +1202,26 @@ func (e *env) rereadAll() {
 			out := reflect.New(e.m.typ)
 			var res *gorm.DB
 			how := "First"
-			if (i+rep)%2 == 0 {
+			// the key condition as Where(...) or as inline condition of the finisher
+			inline := (i+rep)%4 >= 2
+			conds := append([]interface{}{where}, rc.pkArgs...)
+			switch {
+			case (i+rep)%2 == 0 && inline:
+				how = "Take"
+				res = e.tx().Take(out.Interface(), conds...)
+			case (i+rep)%2 == 0:
 				how = "Take"
 				res = e.tx().Where(where, rc.pkArgs...).Take(out.Interface())
-			} else {
+			case inline:
+				res = e.tx().First(out.Interface(), conds...)
+			default:
 				res = e.tx().Where(where, rc.pkArgs...).First(out.Interface())
 			}
-			how = fmt.Sprintf("%s.Where(%q, %v).%s(&T{}) [read %d of round %d, compared after the round]", e.recv(), where, rc.pkArgs, how, len(outs)+1, rep+1)
+			if inline {
+				how = fmt.Sprintf("%s.%s(&T{}, %q, %v) [read %d of round %d, compared after the round]", e.recv(), how, where, rc.pkArgs, len(outs)+1, rep+1)
+			} else {
+				how = fmt.Sprintf("%s.Where(%q, %v).%s(&T{}) [read %d of round %d, compared after the round]", e.recv(), where, rc.pkArgs, how, len(outs)+1, rep+1)
+			}
 			if res.Error != nil {
 				e.problem("read-struct/error", "%s: %v", how, res.Error)
 				continue
@@ -1443,17 +1494,20 @@ var Engine = &core.Engine{
 		"database-function defaults, default:null, autoCreateTime/autoUpdateTime (time, s, ms, ns; by tag and by name), not null, <- permissions; value- and pointer-embedded structs with " +
 		"embeddedPrefix (also with a double underscore, also none), nested; embedded by tag or ANONYMOUSLY (Go embedding via reflect.StructOf: no tag, embeddedPrefix tag only, both tags; also inside an embedded struct); " +
 		"in about a quarter of the generated models one more top-level field SHADOWS a field inside an embedded struct - it carries the same Go name (Go's own shadowing of a promoted field) or a column: tag that spells the inner field's column - " +
-		"and is declared directly before or directly after the embedded struct (anonymous / tagged, value / pointer, nested): the outer field is an ordinary field of the model, the inner one is left zero and must stay zero; keys: auto-increment (8 integer kinds, explicit/implicit/renamed), non-auto int, string, composite of 2 and 3) or, every 8th case, one of 3 static models " +
+		"and is declared directly before or directly after the embedded struct (anonymous / tagged, value / pointer, nested): the outer field is an ordinary field of the model, the inner one is left zero and must stay zero; keys: auto-increment (8 integer kinds, explicit/implicit/renamed), non-auto int, string, composite of 2 and 3; " +
+		"the parts of a key that the caller gives (non-auto, composite) take BOUNDARY VALUES too: in a third of the records of a composite-key model one part is the ZERO VALUE of its type (0 or \"\", any position), a single non-auto key is 0 / \"\" once per database, signed parts are negative in a fifth of the records, and a tenth of the integer parts hold the largest / smallest value of their type; key tuples stay unique) or, every 8th case, one of 3 static models " +
 		"(anonymous value/pointer embedding, gorm.Model, TableName, anonymous embeddedPrefix) and 2 static models whose named embedded structs have promoted fields shadowed by outer fields declared after and before them (auto time, default, pointer, and the primary key itself: uint key of the embedded struct shadowed by a string key); each model x {RETURNING, LastInsertId reversed, LastInsertId first-id} on a fresh database x " +
 		"13 Create calls (single first, then in random order single, &[]T, &[]*T, []*T, CreateInBatches over values/pointers with batch 1..n+1, map, &map, &[]map, one more slice shape, and last []map by value and CreateInBatches over []map / &[]map; " +
 		"auto keys zero / explicit / mixed within one slice) with boundary values; every record is read back by key with First / Take / Find into a fresh struct and with Model-bound Take / First / Find and Table-bound Take into a fresh map; " +
-		"then consecutive First/Take of the records compared only after the round (3 rounds for self-serializing models); then DESTINATIONS USED MORE THAN ONCE: one map variable (nil or empty at first, by pointer or by value) as destination of up to 8 consecutive Take/First " +
+		"every record with a zero key part and every third of the others is also read through a DESTINATION THAT CARRIES ITS KEY and no Where (t := T{K1: 7, K2: \"\"}; db.First|Take|Find(&t)): the payload tells which record was loaded (signature read-struct-by-destination-key[/zero-key-part]/other-record), then every field is compared; " +
+		"the same for up to 8 records (those with a zero key part first) at the end of the database, when the table holds every record; " +
+		"then consecutive First/Take of the records compared only after the round (3 rounds for self-serializing models; the key condition as Where(...) or as inline condition First(&t, \"k = ?\", key) in turn); then DESTINATIONS USED MORE THAN ONCE: one map variable (nil or empty at first, by pointer or by value) as destination of up to 8 consecutive Take/First " +
 		"calls for different records (Model-bound in every database; Table-bound, and the four that follow, in every second database), a record read a second time into the struct that holds it, " +
-		"in every database ONE struct variable as destination of up to 6 consecutive Take / First / Find calls for DIFFERENT records (its key fields reset to zero before each call; every field whose column holds a value in the row read is compared, signature read-reused-struct-other/), rows.Next loops with ScanRows into one map / one struct declared outside of the loop, " +
+		"in every database ONE struct variable as destination of up to 6 consecutive Take / First / Find calls for DIFFERENT records (its key fields reset to zero before each call; every field whose column holds a value in the row read is compared, signature read-reused-struct-other/; in every second database also the loop that SETS the key fields of the variable to the key of the record asked for and calls First / Take / Find without Where, signature read-reused-struct-other-by-destination-key/), rows.Next loops with ScanRows into one map / one struct declared outside of the loop, " +
 		"Find into a slice ([]T or []*T) that still holds an earlier Find in another order (records differ in which columns are NULL: a column that is NULL after it held a value in the same destination is counted, reused_map_null_after_value); " +
 		"and Find of the whole table into []T, []*T and []map with and without Model; " +
 		"distinct = (feature set of the model, back-fill mode, create shape incl. slice length, batch size and key mode); non-trivial = the Create succeeded, every record's row was found by " +
-		"its in-memory key with raw SQL, and every column and every gorm read (First/Take/Find into structs and maps) was compared; a reused-destination round (reused-map/model|table, reused-struct, reused-struct-other, scanrows/map|struct, reused-slice) counts when all its reads compared equal",
+		"its in-memory key with raw SQL, and every column and every gorm read (First/Take/Find into structs and maps) was compared; a reused-destination round (reused-map/model|table, reused-struct, reused-struct-other[-by-destination-key], scanrows/map|struct, reused-slice) and the closing destination-key round (destination-key[/zero-key-part]) count when all their reads compared equal",
 	Assumptions: []string{
 		"a Go-zero value in a field carrying a default tag means 'use the default' (gorm's documented rule); the expected value is then the tag's literal or the database's result",
 		"values are representable in the column type: uint64 < 2^63, valid UTF-8 without NUL, no NaN/Inf, times in years 1..9999 with whole-minute zone offsets; times are compared as instants, -0 == +0",
@@ -1469,7 +1523,9 @@ var Engine = &core.Engine{
 		"gob-serialized values never contain empty non-nil slices/maps (gob does not distinguish them from nil) and are never nil pointers (gob refuses them)",
 		"RowsAffected is not part of the statement and is not checked",
 		"a map destination may be used any number of times: after a read every column key of the map holds the value of the row just read (NULL = nil); keys of the map that are not columns are not looked at. Rows() + ScanRows is taken as one of the query read paths of the title ('what queries load back'); its violations carry their own signatures (scanrows-map/, scanrows-struct/)",
-		"a struct destination is fresh, already holds the very record that is read again, or still holds ANOTHER record with its key fields reset to their zero value (gorm uses a non-zero key in the destination as a query condition: that is not generated). In the last case only the fields whose column holds a value in the row read are compared: gorm leaves a field as it is when its column is NULL, and the statement does not say what such a field of a used destination must hold (ScanRows, which zeroes the struct itself, is compared on every field)",
+		"a struct destination is fresh, already holds the very record that is read again, or still holds ANOTHER record with its key fields reset to their zero value or set to the key of the record asked for. In the last case only the fields whose column holds a value in the row read are compared: gorm leaves a field as it is when its column is NULL, and the statement does not say what such a field of a used destination must hold (ScanRows, which zeroes the struct itself, is compared on every field)",
+		"a struct destination may carry the primary key of the record it asks for (gorm's documented way to say which record First / Take / Find load: the non-zero key fields of the destination become the condition). Such a read is generated only with the complete key of a record that Create wrote, parts that are the zero value included, and only when at least one part is non-zero and the non-zero parts select exactly one row of the table (counted with raw SQL before the call): it must then load that record. A key whose parts are all zero (the destination carries no condition), non-zero parts shared with another row, and destinations carrying only some parts of a key are not generated - which row is loaded then is not fixed by the statement; non-key fields of such a destination are zero (fresh) or hold another record under the rule above",
+		"key values that the caller gives are unique as tuples, valid for the part's type and below 2^63; strings that differ only in case or trailing blanks are not generated as keys (collations differ between databases)",
 		"a name that is the column of one field and the Go name of another one is handed to gorm only as a column name (result columns; map keys of Create): the Go-name spelling of a map key is generated only for fields whose Go name is not a column of the model and is carried by no other field of the model at any depth (which of several fields called Num a map key \"Num\" means is not fixed by the statement)",
 		"two fields may share a column only when exactly one of them is on the shortest path (the outer field of Go's shadowing rule); the others are left zero in every record handed to Create, so that 'read back with equal field values' can only be met by storing and loading the field on the shortest path, and they are expected to be zero afterwards. Two fields on paths of the same length sharing a column are not generated (which one owns the column is not fixed by the statement)",
 		"column names contain letters, digits, underscores (also doubled), dash, blank and #; names with a dot, a quote character or a question mark are not generated",
